@@ -295,9 +295,190 @@ def run_config(ctx, cfg, nrandom, report):
     return n[0], inst, ref
 
 
+# ---------------------------------------------------------------- correspondence of the hand model Model/WasmMem.v
+HEAP_START = 0x10000000
+
+
+def zt(v):
+    return str(v) if v >= 0 else '(%d)' % v
+
+
+def rle(bs):
+    """Coq list term of a byte string, zero runs as repeat 0 (Z.to_nat k)"""
+    parts, i, n = [], 0, len(bs)
+    while i < n:
+        if bs[i] == 0:
+            j = i
+            while j < n and bs[j] == 0:
+                j += 1
+            if j - i >= 8:
+                parts.append('repeat 0 (Z.to_nat %d)' % (j - i))
+                i = j
+                continue
+        j = i
+        while j < n and not (bs[j] == 0 and bs[j:j + 8] == bytes(min(8, n - j))):
+            j += 1
+        j = max(j, i + 1)
+        parts.append('[%s]' % '; '.join(str(b) for b in bs[i:j]))
+        i = j
+    return '(%s)' % ' ++ '.join(parts) if parts else '[]'
+
+
+def pymem_term(heap, stack, mem0, maxp):
+    return '{| heap := %s; stack := %s; mem0 := %d; maxp := %d |}' % (rle(bytes(heap)), rle(bytes(stack)), mem0, maxp)
+
+
+INT_FMT = [('i8', True, 1), ('u8', False, 1), ('i16', True, 2), ('u16', False, 2), ('i32', True, 4), ('u32', False, 4),
+           ('i64', True, 8), ('u64', False, 8)]
+# wasm opcode -> (bytes, signed struct format, N) as lowered by wasm2ppci.gen_load / gen_store
+LOAD_KIND = {'i32.load': (4, True, 32), 'i32.load8_s': (1, True, 32), 'i32.load8_u': (1, False, 32),
+             'i32.load16_s': (2, True, 32), 'i32.load16_u': (2, False, 32), 'i64.load': (8, True, 64),
+             'i64.load8_s': (1, True, 64), 'i64.load8_u': (1, False, 64), 'i64.load16_s': (2, True, 64),
+             'i64.load16_u': (2, False, 64), 'i64.load32_s': (4, True, 64), 'i64.load32_u': (4, False, 64)}
+STORE_KIND = {'i32.store': (4, 32), 'i32.store8': (1, 32), 'i32.store16': (2, 32), 'i64.store': (8, 64),
+              'i64.store8': (1, 64), 'i64.store16': (2, 64), 'i64.store32': (4, 64)}
+
+
+def _outcome(f, *a):
+    from vlib import OkV, Internal
+    try:
+        return OkV(f(*a))
+    except Exception:   # noqa: BLE001
+        return Internal
+
+
+def model_cases_rt(ctx):
+    """IrPy.load_<ty>/store_<ty>/read_mem on a small synthetic heap+stack (the class the python target really uses)
+    vs Model.WasmMem.load_int/store_int, including negative and out-of-range addresses (Python slice semantics)"""
+    from vlib import OkV, Internal
+    from ppci.wasm.execution._python_instance import get_irpy_rt
+    cls = get_irpy_rt().IrPy
+    rng = ctx.rng
+    heap0 = bytes([rng.randrange(256) for _ in range(24)])
+    stack0 = bytes([rng.randrange(256) for _ in range(12)])
+    cases = []
+    addrs = [HEAP_START + k for k in (0, 1, 15, 16, 17, 20, 22, 23, 24, 25, -1, -2)] + [0, 1, 4, 5, 8, 11, 12, 13, -1, -2, -4, -5,
+                                                                                         -8, -9, -12, -13, -16, -20]
+    for ty, sg, size in INT_FMT:
+        for a in addrs:
+            rt = cls()
+            rt.heap, rt.stack = bytearray(heap0), bytearray(stack0)
+            out = _outcome(getattr(rt, 'load_' + ty), a)
+            m = pymem_term(heap0, stack0, HEAP_START, 3)
+            cases.append(('load_int %s %s %d%%nat %s' % (m, 'true' if sg else 'false', size, zt(a)), out))
+        lo, hi = (-(1 << (8 * size - 1)), (1 << (8 * size - 1)) - 1) if sg else (0, (1 << (8 * size)) - 1)
+        for a in addrs[::2]:
+            for v in (lo, hi, hi + 1, lo - 1, 0x5a % (hi + 1)):
+                rt = cls()
+                rt.heap, rt.stack = bytearray(heap0), bytearray(stack0)
+                try:
+                    getattr(rt, 'store_' + ty)(a, v)
+                    out = OkV((list(rt.heap), list(rt.stack)))
+                except Exception:   # noqa: BLE001
+                    out = Internal
+                m = pymem_term(heap0, stack0, HEAP_START, 3)
+                cases.append(('match store_int %s %s %d%%nat %s %s with Ok m => Ok (heap m, stack m) | Internal e => Internal e '
+                              '| Diag c => Diag c | OutOfFuel => OutOfFuel end'
+                              % (m, 'true' if sg else 'false', size, zt(a), zt(v)), out))
+    return cases
+
+
+def address_lowering():
+    """'signed' (Cast i32 -> ptr) or 'unsigned' (Cast i32 -> u32 -> ptr), read from the IR that wasm2ppci emits for a load"""
+    from ppci import ir
+    from ppci.wasm import Module
+    from ppci.wasm.wasm2ppci import wasm_to_ir
+    from ppci.arch.arch_info import TypeInfo
+    m = Module('(module (memory 1) (func (export "f") (param i32) (result i32) (local.get 0) (i32.load offset=4)))')
+    irm = wasm_to_ir(m, TypeInfo(4, 4))
+    f = [x for x in irm.functions if x.name == 'f'][0]
+    casts = [i for b in f.blocks for i in b if isinstance(i, ir.Cast) and i.ty is ir.ptr]
+    if len(casts) != 1:
+        raise ValueError('unrecognised address computation: %d pointer casts' % len(casts))
+    src = casts[0].src
+    if isinstance(src, ir.Cast) and src.ty is ir.u32 and src.src.ty is ir.i32:
+        return 'unsigned'
+    if src.ty is ir.i32:
+        return 'signed'
+    raise ValueError('unrecognised address computation: pointer cast of %s' % src.ty)
+
+
+def model_cases_wasm(ctx):
+    """real one-page module on the python target: every integer load/store opcode at boundary addresses, memory.size,
+    memory.grow vs Model.WasmMem.wasm_load / wasm_store / mem_size / mem_grow_py on a snapshot of the real heap"""
+    from vlib import OkV, Internal
+    from props import c22_exec as X
+    inst = X.instantiate_ops(module_text(1, 3, True), 'python')
+    rt = inst._py_module.rt
+    memi = inst.exports.mem
+    mem0 = memi._mem0_start
+    cases = []
+    low = address_lowering()
+    ctx.cov['stages']['address_lowering'] = low
+    sfx = '_u' if low == 'unsigned' else ''
+
+    def snap():
+        return pymem_term(rt.heap, b'', mem0, memi.max_size)
+    top = PAGE
+    quick = ctx.quick()
+    for op, (size, sg, n) in sorted(LOAD_KIND.items()):
+        for off in ((3,) if quick else (0, 3)):
+            for a in ((top - size - off, top - size - off + 1, -4) if quick else
+                      (0, 1, 40, top - size - off, top - size - off + 1, top - off, top, -4, -2 ** 31)):
+                got = call(inst, fn(op, off), (a,))
+                out = OkV(got[1]) if got[0] == 'ok' else Internal
+                cases.append(('wasm_load%s %s %d%%nat %s %d %s %d' % (sfx, snap(), size, 'true' if sg else 'false', n, zt(a), off),
+                              out))
+    vals = {32: [0x12345678, -1, -0x7f7f7f80], 64: [0x123456789abcdef0, -1, -0x7f7f7f7f7f7f7f80]}
+    for op, (size, n) in sorted(STORE_KIND.items()):
+        for off in ((3,) if quick else (0, 3)):
+            for k, a in enumerate((top - size - off, top - size - off + 1) if quick else
+                                  (64, top - size - off, top - size - off + 1)):
+                before = snap()
+                v = vals[n][k]
+                got = call(inst, fn(op, off), (a, v))
+                lo = max(0, a + off - 8)
+                if got[0] == 'ok':
+                    out = OkV((list(memi.read(lo, 16)) if lo + 16 <= top else list(memi.read(top - 16, 16)), len(rt.heap)))
+                else:
+                    out = Internal
+                lo2 = lo if lo + 16 <= top else top - 16
+                cases.append(('match wasm_store%s %s %d%%nat %d %s %d %s with Ok m => Ok (firstn 16 (skipn (Z.to_nat %d) (wasm_mem m)), '
+                              'len (heap m)) | Internal e => Internal e | Diag c => Diag c | OutOfFuel => OutOfFuel end'
+                              % (sfx, before, size, n, zt(a), off, zt(v), lo2), out))
+    for amount in ((1, 1, 1, 0, -1) if quick else (0, 1, 1, 1, 0, -1, 5)):
+        before = snap()
+        try:
+            r = memi.grow(amount)
+            out = OkV((r, memi.size(), len(rt.heap)))
+        except Exception:   # noqa: BLE001
+            out = Internal
+        cases.append(('match mem_grow_py %s %s with Ok (r, m) => Ok (r, mem_size m, len (heap m)) | Internal e => Internal e '
+                      '| Diag c => Diag c | OutOfFuel => OutOfFuel end' % (before, zt(amount)), out))
+    cases.append(('mem_size %s' % snap(), memi.size()))
+    return cases
+
+
+def model_correspondence(ctx, timeout=150):
+    """returns number of cases; appends to ctx.failed_stages on disagreement"""
+    total = 0
+    for name, gen in (('mem_rt', model_cases_rt), ('mem_wasm', model_cases_wasm)):
+        cases = gen(ctx)
+        total += len(cases)
+        bad = ctx.run_cases(name, ['Spec.WasmMemSpec', 'Model.WasmMem'], cases, shard=200 if name == 'mem_rt' else 8,
+                            timeout=timeout)
+        if bad:
+            ctx.log('memory model disagrees:', name, [cases[i][0][:200] for i in bad[:3]])
+            ctx.failed_stages.append(('correspondence', 'Model.WasmMem (%s) disagrees with the python runtime on %d cases, '
+                                      'first: %s' % (name, len(bad), cases[bad[0]][0][-160:])))
+    ctx.cov['stages']['memory_model_correspondence'] = total
+    return total
+
+
 CONFIGS = [(1, 3, True), (2, 2, True), (1, 1, False), (0, 2, False), (1, None, True)]
 TRAP_EXCEPTIONS = {}      # exception class -> count, for expected out-of-bounds traps (classification for the evidence)
 SIGNED_ADDRESS = 'effective address >= 2^31 is used as a negative (signed) offset'
+GROW_SIGNED = 'operand used as a negative (signed) page count'
 
 
 def memory_stage(ctx, quick=True):
@@ -341,6 +522,17 @@ def memory_stage(ctx, quick=True):
             if got[0] != 'trap':
                 ctx.violation({'fn': 'memory out-of-bounds not trapped', 'class': cls, 'args': list(args),
                                'call': name, 'expected': 'trap', 'actual': got[1], 'kind': 'memory-search'})
+        # memory.grow with an operand >= 2^31 (negative as ppci passes it): must return -1, size unchanged
+        for amount in (-1, -2 ** 31):
+            before = call(inst, 'size', ())
+            got = call(inst, 'grow', (amount,))
+            after = call(inst, 'size', ())
+            total += 1
+            trap_classes['grow(%d)' % amount] = got[1] if got[0] == 'trap' else repr(got[1])
+            if not (got == ('ok', -1) and before == after):
+                ctx.violation({'fn': 'memory.grow operand >= 2^31', 'class': GROW_SIGNED, 'args': [amount],
+                               'expected': -1, 'actual': got[1] if got[0] == 'ok' else 'exception %s' % got[1],
+                               'kind': 'memory-search'})
     ctx.cov['stages']['memory_globals_search'] = {'evaluations': total, 'configs': [list(c) for c in CONFIGS],
                                                   'oob_probe_outcomes': trap_classes,
                                                   'exceptions_raised_for_expected_traps': dict(TRAP_EXCEPTIONS),
